@@ -130,13 +130,16 @@ Next ==
                      ELSE Go(<<C>>, 0, 0, "Rv4", st)
     [] pc = "Rv4" -> Skip("Rv5")
     [] pc = "Rv5" -> IF Cur = "IDENT" THEN BumpS("Rv5e", UpdRel(LAMBDA r : [r EXCEPT !.ver = <<tp>>]))
-                     ELSE ErrBump("Rv6")
+                     ELSE ErrBump("Rv5s")
     [] pc = "Rv5e" ->
          \* [D13] intended: a version may carry an epoch "1:2.0" (IDENT COLON IDENT);
          \* the pinned code stops after the first IDENT and reports "Expected ')'"
          IF Cur = "COLON" /\ At(tp + 1) = "IDENT"
-         THEN Go(<<T(tp), T(tp+1)>>, 2, 0, "Rv6", UpdRel(LAMBDA r : [r EXCEPT !.ver = r.ver \o <<tp, tp + 1>>]))
-         ELSE Go(<<>>, 0, 0, "Rv6", st)
+         THEN Go(<<T(tp), T(tp+1)>>, 2, 0, "Rv5s", UpdRel(LAMBDA r : [r EXCEPT !.ver = r.ver \o <<tp, tp + 1>>]))
+         ELSE Go(<<>>, 0, 0, "Rv5s", st)
+    \* [D46] intended: blanks may stand in front of the closing parenthesis (Policy 7.1: whitespace may appear at
+    \* any point in the version specification); the pinned code reported "Expected ')'" for "(>= 1 )"
+    [] pc = "Rv5s" -> Skip("Rv6")
     [] pc = "Rv6" -> IF Cur = "R_PARENS" THEN Go(<<T(tp), C>>, 1, 0, "Ra", st)
                      ELSE IF Cur = "EOF" THEN Go(<<O("ERROR"), C, C>>, 0, 1, "Ra", st)
                      ELSE Go(<<O("ERROR"), T(tp), C, C>>, 1, 1, "Ra", st)
